@@ -9,6 +9,21 @@ B. the instrumented loop WITH a control attached obeys the same delivery contrac
    pauses right after the first delivery whose breakpoint check fires.
 C. reset() re-primes everything the constructor primed (sources, probes, pre-run events and the
    fault schedule) and zeroes the counters.
+   step()/resume(): the state handed to run() (call-site obligations of Simulation.run) is the entry
+   state with exactly the pause state cleared and the step budget armed; get_state() is a pure read.
+D. breakpoints: should_break of every breakpoint class is a pure read giving the documented
+   predicate; _check_breakpoints pauses iff some registered breakpoint fires, removes exactly the fired
+   one-shots, writes nothing but its own map; add/remove/clear write that map only.
+E. hooks: each registered hook is called exactly once per delivery (time advance), in registration
+   order, with that event (time); the step budget is spent exactly once per delivery; registration
+   and removal write the hook maps only.
+F. tracing: record() appends exactly one span and never raises; EventHeap.pop/_push_single keep the C01
+   multiset contract with heap tracing on or off and write nothing but the recorder; the loop contract
+   of part B is discharged with `_tracing_enabled` SYMBOLIC (both values), counters included.
+G. Simulation.run: first start / re-entry hand the loop the primed start state / exactly the state
+   the pause left (no re-priming), inside the active context of the simulation's own heap and clock.
+bounded: triage/c04_observe_diff.py - whole-run differential of the observation modes on seeded models
+   (also MetricBreakpoint.should_break, which is outside the engine's reach).
 """
 from pyvc.spec import *
 from pyvc import spec as _spec_mod
@@ -53,14 +68,25 @@ from happysimulator.core.simulation import Simulation  # noqa: E402
 PROPERTY = {
     "id": "C04",
     "level": "proof",
-    "trusted": ["heapq contract (pyvc/bag.py)", "the contracts of Event.invoke / Clock.update / EventHeap.* proved in C01"],
+    "trusted": ["heapq contract (pyvc/bag.py)", "the contracts of Event.invoke / Clock.update / EventHeap.* proved in C01",
+                "the contracts of _set_active_context / _clear_active_context proved in C01 part C (run() enters the loop "
+                "through the _active_sim_context manager built from them)"],
     "assumptions": COMMON_ASSUMPTIONS + [
         "hook callbacks and breakpoint predicates are user code assumed free of side effects on simulation state",
-        "trace recorder off in this check (Simulation._tracing_enabled false): recorder.record() only appends to its own list",
+        "a user-supplied trace recorder obeys the frame proved for InMemoryTraceRecorder.record (writes only the recorder, "
+        "never raises); InMemoryTraceRecorder stands for every non-null recorder",
+        "user-defined breakpoint classes (Breakpoint protocol) obey the frame proved for the built-in ones: should_break "
+        "writes nothing; within one _check_breakpoints call its answer is a function of the breakpoint object",
+        "the 8-hex-digit uuid4 ids of hooks / breakpoints are fresh: the registration clauses state `registered last / "
+        "others kept` for an id that was not registered before (a collision would replace the older registration)",
+        "Simulation.run: a simulation that is not running is fresh or reset (clock at start_time); run() after a "
+        "completed run without reset() is outside the contract; paused ==> running (established by the loop's exit "
+        "clause, reset() and the constructor)",
         "the equality of whole runs under any pause/step/resume sequence is the composition (induction over "
         "iterations) of the proved per-iteration clauses: every iteration of either loop is a Step of the same relation "
         "or a pause that changes nothing",
     ],
+    "bounded": [],
 }
 
 # =============================================================================== trace recorders (part F)
@@ -757,6 +783,109 @@ fn(EventHeap, "_push_single", args={"event": Ref(Event)}, uses=[(InMemoryTraceRe
        ("keeps-heap-time", lambda s: unchanged(s, s.self, "_current_time")),
        ("one-span-iff-tracing", _span_iff_tracing)])
 
+# =============================================================================== G. Simulation.run: first start / re-entry
+# From the statement: "a run driven by any sequence of pause/step/resume calls ends in the same state as an
+# uninterrupted run" - run() on a simulation that is already running (i.e. paused) must hand the loop EXACTLY the
+# state the pause left: same heap object and content, same clock, time and counters - no re-priming, no reset of a
+# counter; a first start begins at start_time with events_processed 0 on the heap as primed.  Both are statements
+# about the state at the call of _run_loop relative to run()'s entry: call-site obligations of the loop's contract.
+# The loop runs inside the active-simulation context of its own heap and clock (contract of
+# _set_active_context / _clear_active_context: C01 part C).
+import contextlib as _contextlib  # noqa: E402
+
+SIMMOD = "happysimulator.core.simulation"
+
+
+class _NullCtxTy(T.Ty):
+    name = "ContextManager"
+
+    def fresh(self, base):
+        return _contextlib.nullcontext()
+
+
+cls(Simulation, fields={"_code_debugger": Any})
+stub_of(SIMMOD, "_active_sim_context", kind="function", returns=_NullCtxTy(), modifies=[], requires=[
+    ("context-is-this-simulations-heap-and-clock", lambda s: same(s.heap, G("sim")._event_heap) & same(s.clock, G("sim")._clock))])
+
+
+def _loop_entered_in_context(s):
+    tr = G("trace") if has_G("trace") else []
+    return len([r for r in tr if r[0].endswith("._active_sim_context")]) == 1
+
+
+def _loop_gets_the_state_the_pause_left(s):
+    sim = s.self
+    was_running = E.old(sim)._is_running
+    if was_running if isinstance(was_running, bool) else _pctx_cur().branch(to_z3_bool(was_running)):
+        # re-entry: nothing of S = (pending, clock, time, counters), no flag, no observer has been touched
+        return (_engine_untouched_since_entry(sim) & (True if RUN_CLEARS_PAUSED else unchanged(E, sim, "_is_paused"))
+                & (True if sim._control is None else unchanged(E, sim._control)))
+    # first start: the heap as primed (content untouched, its time stamp at start), time at start, nothing processed
+    h = sim._event_heap
+    return (sim._is_running & same_instant(sim._current_time, sim._start_time) & (sim._events_processed == 0)
+            & unchanged(E, sim, "_event_heap", "_clock", "_end_time", "_start_time", "_control", "_tracing_enabled", "_trace",
+                        "_event_router", "_is_paused", "_events_cancelled")
+            & unchanged(E, h, "_heap", "_primary_event_count", "_tracing_enabled", "_event_counter") & unchanged(E, sim._clock)
+            & same_instant(h._current_time, sim._start_time))
+
+
+_ST_LOOP = stub_of(Simulation, "_run_loop", returns=Any, modifies="world", ensures=[], requires=[
+    ("the-loop-runs-inside-the-active-context-of-this-simulation", _loop_entered_in_context),
+    ("the-loop-gets-the-state-the-pause-left-or-the-primed-start-state", _loop_gets_the_state_the_pause_left),
+    ("the-loop-is-entered-running", lambda s: s.self._is_running),
+    ("the-clock-shows-the-current-time-at-loop-entry", lambda s: same_instant(s.self._clock._current_time, s.self._current_time)),
+    ("the-loop-is-entered-with-the-recorders-as-attached", lambda s: _flag_says_whether_a_real_recorder_is_attached(s.self)
+     & _flag_says_whether_a_real_recorder_is_attached(s.self._event_heap))])
+_ST_LOOP.keeps = []
+# FINDING (triage/c04_run_on_paused_keeps_paused_flag.py): a direct run() on a paused simulation - the documented
+# re-entry - enters the loop with _is_paused still True (only control.resume()/step() clear it): the loop's own
+# precondition `not paused` (part B) is not established, hooks observe is_paused while events are delivered and
+# reset() is accepted mid-run.  Deliveries are unaffected.  Repair: fixes/C04_run-reentry-clears-paused-flag.diff;
+# the call-site obligation is active once the repair is in the tree (then the re-entry clause allows exactly that write).
+import os as _os  # noqa: E402
+from pyvc.ctx import REPO as _REPO  # noqa: E402
+RUN_CLEARS_PAUSED = "a direct run() on a paused simulation must do the same" in open(
+    _os.path.join(_REPO, "happysimulator/core/simulation.py")).read()
+if RUN_CLEARS_PAUSED:
+    _ST_LOOP.requires.append(("the-loop-is-entered-unpaused", lambda s: Not(s.self._is_paused)))
+
+
+def _run_returns_the_loops_summary(s):
+    tr = G("trace") if has_G("trace") else []
+    loops = [r for r in tr if r[0] == "Simulation._run_loop"]
+    return len(loops) == 1 and (s.result is loops[0][2] or same(s.result, loops[0][2]))
+
+
+fn(Simulation, "run", uses=[(Simulation, "_run_loop"), (SIMMOD, "_active_sim_context"), (InMemoryTraceRecorder, "record")],
+   setup=_sim_setup,
+   requires=[lambda s: wf_instant(s.self._start_time),
+             # paused ==> running: the exit clause `a-pause-keeps-the-run-resumable` of the loop, reset() and the
+             # constructor establish it; resume()/step()/run() keep it
+             lambda s: implies(s.self._is_paused, s.self._is_running),
+             # a simulation that is not running is fresh or reset (clock at start_time): a second run() after a
+             # COMPLETED run without reset() is outside this contract (and outside the statement)
+             lambda s: implies(Not(s.self._is_running), same_instant(s.self._clock._current_time, s.self._start_time))],
+   ensures=[("enters-the-loop-exactly-once-and-returns-its-summary", _run_returns_the_loops_summary)])
+
+# =============================================================================== bounded stand-in
+def _observe_diff(seed, tier):
+    """whole runs, natively: the same seeded model plain / control attached / hooks + non-firing breakpoints of every
+    class / trace recorder / recorder + control under a random pause-step-resume-breakpoint schedule / reset + run
+    must give the same delivery log, entity counters, processed / cancelled counts, final time and left-over heap;
+    step(n) delivers exactly n; a count breakpoint pauses at exactly that count; hooks once per delivery in
+    registration order; MetricBreakpoint.should_break (getattr by a data-dependent attribute name: outside the
+    verifier's reach) is a pure read answering op(attribute, threshold)"""
+    return run_native_script("triage/c04_observe_diff.py", 150 if tier == "quick" else 5000, seed)
+
+
+PROPERTY["bounded"].append({"name": "observation-modes-differential",
+                            "bound": "150 (quick) / 5000 (thorough) seeded relay models x 7 observation modes: 2-4 entities, 1-5 "
+                                     "tokens of 0-5 hops on a 0.25 s grid (ties), fan-out, lazy cancellations, daemon tokens, "
+                                     "finite end_time or auto-termination",
+                            "fn": _observe_diff})
+
 # =============================================================================== (keep last) the loop's callee contracts
+_spec_mod.CONTRACTS[(Simulation, "_run_loop")] = _ST_LOOP          # (the task of part B keeps its own contract object)
+_spec_mod.CONTRACTS[(Simulation, "run")] = _RUN                    # step()/resume() see run() through its re-entry obligations
 for _st in (_ST_NTA, _ST_NEP, _ST_CB):
     _spec_mod.CONTRACTS[(SimulationControl, _st.name)] = _st
